@@ -238,6 +238,29 @@ def run_shard(spec, tier, seed):
                     V(fname, f'length-limit-disagrees|{line}', f'line {line} -> {target}: template allows {tf.max_len} characters, mapping {ml}')
                 elif tf.max_len is not None:
                     res.count('length_limit_checks')
+                # the limit counts characters, as the template's does: a text of exactly that many characters is accepted whatever
+                # the characters are (an accented initial, a name beyond Latin-1), one more character is refused
+                if ml is not None and tf.max_len is not None and ml == tf.max_len and isinstance(fld, F.StringField):
+                    for label_, first in (('ascii', 'X'), ('accented', 'É'), ('beyond-latin-1', 'ř'), ('cjk', '東')):
+                        txt = (first + 'x' * ml)[:ml]
+                        res.evaluations += 1
+                        res.count('limit_behaviour_probes')
+                        try:
+                            out_ = pf.value(txt, fld)
+                        except BaseException as e:  # noqa
+                            V(fname, f'text-within-template-limit-refused|{label_}', f'line {line} -> {target}: a text of {ml} characters ({txt!r}) fits the template limit of {tf.max_len} but is refused: {type(e).__name__}')
+                            break
+                        if not isinstance(out_, str) or len(out_) != ml:
+                            V(fname, f'text-within-template-limit-changed|{label_}', f'line {line} -> {target}: {txt!r} is written as {out_!r}')
+                            break
+                        try:
+                            pf.value(txt + 'y', fld)
+                            V(fname, f'text-over-template-limit-accepted|{label_}', f'line {line} -> {target}: a text of {ml + 1} characters is accepted, the template allows {tf.max_len}')
+                            break
+                        except PF.PDFValueTooLong:
+                            pass
+                        except BaseException:  # noqa
+                            pass
             # export values / choices for every value of the driving line
             if kind in ('button', 'choice') and not isinstance(pf, PF.OptionlessButtonPDFField):
                 dvals = typed_values(fld, hx)
@@ -263,6 +286,24 @@ def run_shard(spec, tier, seed):
             # label
             lab = label_of(tf.speak) if tpl.flavour == 'xfa' else nc_label(target)
             labelled.append((tf.order, tf.page, lab, line, target, pf))
+        # Yes / No boxes of one question, recognised by their PLACE in the template (the "No" box sits on the same row just right of
+        # the "Yes" box - the N.C. templates carry neither spoken text nor a common name stem for them): one line drives both
+        btn = [(pf, tpl.fields.get(pf.pdf_field_name)) for pf in fo.pdf_fields()]
+        btn = [(pf, tf) for pf, tf in btn if tf is not None and tf.kind == 'button' and tf.rect is not None]
+        for pf, tf in btn:
+            if not pf.pdf_field_name.lower().endswith('yes'):
+                continue
+            right = [(tf2.rect[0] - tf.rect[2], pf2) for pf2, tf2 in btn if pf2.pdf_field_name.lower().endswith('no') and tf2.page_ref == tf.page_ref
+                     and abs(tf2.rect[1] - tf.rect[1]) < 3.0 and 0 < tf2.rect[0] - tf.rect[2] < 40.0]
+            if not right:
+                continue
+            pf2 = min(right, key=lambda t_: t_[0])[1]
+            res.evaluations += 1
+            res.count('yes_no_pairs_by_position')
+            res.distinct.add(f'{year}|{fname}|pair|{pf.pdf_field_name.split(".")[-1]}')
+            if pf.field_name != pf2.field_name:
+                V(fname, f'yes-no-pair-driven-by-different-lines|{pf.pdf_field_name.split(".")[-1]}',
+                  f'{pf.pdf_field_name} is filled from line {pf.field_name} but the "No" box next to it on the same row ({pf2.pdf_field_name}) from line {pf2.field_name}')
         # exclusive groups driven by one line: at most one on for every value
         groups = {}
         for pf in fo.pdf_fields():
